@@ -24,7 +24,7 @@ _CTRL_EVENT_FORMAT = "control={0},{1}"
 
 
 def _combine_event_and_control(event: str, control: str) -> str:
-    if pd.notnull(control):
+    if pd.notnull(control) and pd.notnull(event):
         return _CTRL_EVENT_FORMAT.format(control, event)
     return event
 
